@@ -413,7 +413,9 @@ pub fn run(tkind: TKind, depth: usize, cap: u32) {
 /// 2004 bytes: sizes for which a receive-buffer size other than the default matters.
 pub fn run_large(tkind: TKind, depth: usize) {
     hal::reset();
-    let feats = [F_VERSION_1, F_VERSION_1 | F_INDIRECT | F_EVENT_IDX];
+    // (The device also offers socket-type feature bits: SEQPACKET alone - as Linux vhost-vsock
+    // does - resp. STREAM and SEQPACKET. The driver is a byte-stream driver whatever is offered.)
+    let feats = [F_VERSION_1 | 2, F_VERSION_1 | F_INDIRECT | F_EVENT_IDX | 1 | 2];
     let offered = feats[choose(feats.len(), "offered features")];
     let preset = [PRESETS[0], PRESETS[1]][choose(2, "counter preset")];
     let mut cfg = vec![0u8; 8];
